@@ -331,7 +331,7 @@ def gen_pair_cases(pid, what, seed, tier, lmax, draws, extra):
         for lb in range(lmax + 1):
             for d in range(draws):
                 rng = cg.rng_for(seed, pid, "pair", la, lb, d)
-                bits = 10 if tier == "quick" else 24
+                bits = 24
                 same = rng.random() < 0.2
                 sa = cg.shell(rng, la, bits=bits)
                 sb = cg.shell(rng, lb, bits=bits, cen=sa["center"] if same else None)
@@ -348,7 +348,7 @@ def gen_pair_cases(pid, what, seed, tier, lmax, draws, extra):
                 # the tail regime: two diffuse shells so far apart along ONE axis that the Gaussian product prefactor is
                 # 1e-10..1e-14 while the polynomial factors keep the integral above the tolerance of the property
                 rng = cg.rng_for(seed, pid, "tail", la, lb)
-                bits = 10 if tier == "quick" else 24
+                bits = 24
                 ea, eb = cg.exponent(rng, 0.3, 1.0, bits), cg.exponent(rng, 0.3, 1.0, bits)
                 mu = cg.val(ea) * cg.val(eb) / (cg.val(ea) + cg.val(eb))
                 dist = cg.dyadic((rng.uniform(23.0, 32.0) / mu) ** 0.5, 12)
@@ -364,7 +364,7 @@ def gen_pair_cases(pid, what, seed, tier, lmax, draws, extra):
             if (la * 7 + lb * 3 + seed) % 3 == 0 or tier != "quick":
                 # two DISTINCT centres 1e-3..1e-5 bohr apart, in a frame tens of bohr from the coordinate origin
                 rng = cg.rng_for(seed, pid, "near", la, lb)
-                bits = 10 if tier == "quick" else 24
+                bits = 24
                 o = cg.far_origin(rng)
                 sa = cg.shell(rng, la, K=rng.randint(1, 2), bits=bits, cen=o, hi=min(50.0, cg.exp_cap(la)))
                 sb = cg.shell(rng, lb, K=rng.randint(1, 2), bits=bits, cen=cg.add(o, cg.tiny_offset(rng)), hi=min(50.0, cg.exp_cap(lb)))
@@ -381,7 +381,7 @@ def gen_basis_cases(pid, what, seed, tier, lmax, count, extra, start_id, with_se
     out = []
     for d in range(count):
         rng = cg.rng_for(seed, pid, "basis", d)
-        bits = 10 if tier == "quick" else 24
+        bits = 24
         n = rng.randint(1, nmax)
         if d % 4 == 1:
             # diffuse shells spread over tens of bohr: the Gaussian prefactor is small but not negligible, and polynomial
@@ -395,6 +395,12 @@ def gen_basis_cases(pid, what, seed, tier, lmax, count, extra, start_id, with_se
             n = max(n, 2)
             basis = [cg.shell(rng, rng.randint(0, min(lmax, 2)), K=rng.randint(1, 3), bits=bits,
                               cen=o if rng.random() < 0.6 else cg.add(o, cg.tiny_offset(rng))) for _ in range(n)]
+            for s_ in basis[:2]:       # core-like shells: the tightest primitives the property allows for this l
+                cap = cg.exp_cap(s_["l"])
+                ex = [cg.exponent(rng, 0.3 * cap, cap, bits), cg.exponent(rng, 0.01 * cap, 0.05 * cap, bits), cg.exponent(rng, 0.5, 3.0, bits)]
+                s_["exps"] = ex
+                s_["coeffs"] = [[cg.coeff(rng) for _ in range(len(s_["coeffs"][0]))] for _ in ex]
+                s_["center"] = o
         else:
             cens = [cg.center(rng) for _ in range(3)]
             basis = [cg.shell(rng, rng.randint(0, lmax), bits=bits, cen=rng.choice(cens) if rng.random() < 0.6 else None)
